@@ -131,6 +131,9 @@ def shapes():
         ("cidr-list", {"f1|cidr": ["10.0.0.0/8", "192.168.0.0/16"]}),
         ("cidr-and", {"f1|cidr": "10.0.0.0/15", "f2": "v2"}),
         ("single-in-list", {"f1": ["v1"]}),
+        ("kw-windash", {"|windash": "-a"}),
+        ("kw-b64offset", {"|base64offset": "ab"}),
+        ("kw-windash-list", {"|windash": ["-a", "b"], "f2": "v2"}),
     ]
 
 
